@@ -664,6 +664,14 @@ def opBipReload (args : List String) : String :=
        | .ok _ => "ok") ++ "\t="
   | _ => "bad-args"
 
+/-- `bip_frompub <x> <y> <cc>`: key data = compressed form of the coordinates as given (no validation in FromPublicKey) -/
+def opBipFromPub (args : List String) : String :=
+  match args.mapM ofHex with
+  | some [xb, yb, cc] =>
+    (if cc.length ≠ 32 then "err"
+     else "ok " ++ toHex ((if beNat yb % 2 = 1 then (0x03 : UInt8) else 0x02) :: be32 (beNat xb))) ++ "\t="
+  | _ => "bad-args"
+
 def opBipUnmarshal (args : List String) : String :=
   match args.mapM ofHex with
   | some [b] =>
@@ -749,6 +757,7 @@ def runOp (line : String) : String :=
     | "bip_derive" => opBipDerive args
     | "bip_derive_from" => opBipDeriveFrom args
     | "bip_reload" => opBipReload args
+    | "bip_frompub" => opBipFromPub args
     | "bip_unmarshal" => opBipUnmarshal args
     | "bip_fromstring" => opBipFromString args
     | "nonce" => opNonce args
